@@ -116,7 +116,7 @@ func checkAEAD(c aeadCase) (string, caseStat) {
 		return fmt.Sprintf("Seal panicked: %v", pnc), st
 	}
 	if !bytes.Equal(out, append(append([]byte{}, prefix...), want...)) {
-		return fmt.Sprintf("Seal output differs from dst || RFC 7518 reference: kit %x, dst %x, reference %x", out, prefix, want), st
+		return fmt.Sprintf("Seal output differs from dst || RFC 7518 reference: kit %s, dst %x, reference %s", hx(out), prefix, hx(want)), st
 	}
 
 	// Open (of the peer's output)
@@ -135,10 +135,16 @@ func checkAEAD(c aeadCase) (string, caseStat) {
 		return fmt.Sprintf("Open panicked: %v", pnc), st
 	}
 	if err != nil || !bytes.Equal(back, append(append([]byte{}, prefix...), pt...)) {
-		return fmt.Sprintf("Open does not invert Seal: %x, %v; want dst %x || pt %x", back, err, prefix, pt), st
+		return fmt.Sprintf("Open does not invert Seal: %s, %v; want dst %x || pt %s", hx(back), err, prefix, hx(pt)), st
 	}
 	st.nontrivial = c.PtLen > 0
 	st.classes = append(st.classes, "aead.roundtrip")
+	if c.PtLen > 300 {
+		st.classes = append(st.classes, "aead.long-message")
+	}
+	if c.AadLen > 40 {
+		st.classes = append(st.classes, "aead.long-aad")
+	}
 	if c.InPlace {
 		st.classes = append(st.classes, "aead.inplace")
 	}
@@ -165,7 +171,7 @@ func checkAEAD(c aeadCase) (string, caseStat) {
 		return fmt.Sprintf("Open of a changed input panicked: %v", pnc), st
 	}
 	if err == nil || len(back) != 0 {
-		return fmt.Sprintf("changed %s accepted: %x, %v", c.Mut.Comp, back, err), st
+		return fmt.Sprintf("changed %s accepted: %s, %v", c.Mut.Comp, hx(back), err), st
 	}
 	st.nontrivial = true
 	st.classes = append(st.classes, "aead.reject."+c.Mut.Comp+"."+c.Mut.Kind)
@@ -237,8 +243,16 @@ func TestAEADRapid(t *testing.T) {
 		if rapid.IntRange(0, 19).Draw(rt, "keyClass") == 0 {
 			c.KeyLen = rapid.IntRange(0, 72).Draw(rt, "keyLen")
 		}
-		c.PtLen = rapid.OneOf(rapid.SampledFrom(blockishLens), rapid.IntRange(0, 300)).Draw(rt, "ptLen")
-		c.AadLen = rapid.OneOf(rapid.Just(0), rapid.IntRange(0, 40)).Draw(rt, "aadLen")
+		if rapid.IntRange(0, 9).Draw(rt, "ptClass") == 0 {
+			c.PtLen = rapid.IntRange(301, 5120).Draw(rt, "ptLenLong")
+		} else {
+			c.PtLen = rapid.OneOf(rapid.SampledFrom(blockishLens), rapid.IntRange(0, 300)).Draw(rt, "ptLen")
+		}
+		if rapid.IntRange(0, 15).Draw(rt, "aadClass") == 0 {
+			c.AadLen = rapid.IntRange(41, 9000).Draw(rt, "aadLenLong") // 8192 bytes = 65536 bits: AL needs a third byte
+		} else {
+			c.AadLen = rapid.OneOf(rapid.Just(0), rapid.IntRange(0, 40)).Draw(rt, "aadLen")
+		}
 		switch rapid.IntRange(0, 3).Draw(rt, "dstForm") {
 		case 0:
 			c.DstCap = -1
